@@ -292,7 +292,7 @@ def run(index, rep, tier):
     # ---- R08.6
     with rep.section("R08.6"):
         rep.rule("R08.6", "the three single-child splice-out sites (suppress_unifurcations, encode_bipartitions, extract_subtree) merge edge lengths with the same None handling: removed length None -> child unchanged; child None -> takes the removed length; both -> sum")
-        sites = [(TREE + ".suppress_unifurcations", None), (TREE + ".encode_bipartitions", None), (NODE + ".extract_subtree", None)]
+        sites = [(TREE + ".suppress_unifurcations", None), (TREE + ".encode_bipartitions", None), (NODE + ".extract_subtree", None), (TREE + ".collapse_basal_bifurcation", None)]   # the last one is reached by every in-place prune of an unrooted tree with update_bipartitions=True
         for q, _ in sites:
             fi = index.function(q)
             res = merge_semantics(fi)
